@@ -28,6 +28,12 @@ qubit, while the argument BIT stays on qubit k.  On each: input_qubits == range(
 the Lean model, `input_qubits_range`), the qubit-map entry of every argument bit name against the compiler model,
 and the round trip through the REPORTED input_qubits / output_qubits.
 
+Histories on ONE QlassF object (`history_programs`, `HISTORIES`, `check_history`): programs whose layout differs between
+uncompute on and off; compile() again under the other flag / the same flag, reads in between, a function compiled
+late, two objects from the same source.  After every step every live object: every observable read twice, == the
+circuit held now, == a fresh object compiled with the same options, all values round-tripped through the REPORTED
+qubits, compiler model on the choices of the latest compile().
+
 A round-trip mismatch with all codec-side checks passing is a front-end (C01) or compiler (C02)
 failure: decided by evaluating qf.expressions against the circuit run with the k-th argument bit ON QUBIT k (what C02
 states), counted and skipped here; a mismatch that is only there when the string is loaded on the reported
@@ -548,18 +554,21 @@ def history_programs():
         P.append(mk_program(f"c05h_{len(P) + 1}", argtys, body, ret, rexp, "history:" + family))
 
     S = lambda t: ["scalar", t]  # noqa: E731
-    add("mac", [Q3, Q3], ["c = a + b", "return c * b"], Q3, S(Q3))                     # the seeded demo, 3 bits
+    add("mac", [Q3, Q3], ["c = a + b", "return c * b"], Q3, S(Q3))                     # the seeded demo at 3 bits
     add("mac", [Q2, Q2], ["c = a - b", "return c * b"], Q2, S(Q2))
     add("add-add", [Q3, Q3], ["c = a + b", "return c + a"], Q3, S(Q3))
-    add("add-sub", [Q2, Q2], ["c = a - b", "return c - b"], Q2, S(Q2))
     add("const", [Q3, Q3], ["c = b + 3", "return c * 3"], Q3, S(Q3))
     add("square", [Q3, Q3], ["c = a - b", "return c * c"], Q3, S(Q3))                   # return qubits permuted
-    add("chain3", [Q3, Q3], ["c = a + b", "d = c * b", "return d + c"], Q3, S(Q3))      # differs under BOTH profiles
+    # the intermediate variable used twice: the layout differs under BOTH profiles
+    add("chain3", [Q3, Q3], ["c = a + b", "d = c * b", "return d + c"], Q3, S(Q3))
+    add("chain3", [Q3, Q3], ["c = a + b", "d = c + a", "return d * c"], Q3, S(Q3))
+    add("chain3", [Q3, Q3], ["c = a - b", "d = c - b", "return d - c"], Q3, S(Q3))
+    add("chain3", [Q3, Q3], ["c = a - b", "d = c * a", "return d + c"], Q3, S(Q3))
     add("chain3", [Q2, Q2], ["c = a * b", "d = c + b", "return d + a"], Q2, S(Q2))
     add("tuple", [Q3, Q3], ["c = a + b", "d = c < b", "return (d, c + a)"], ["tuple", B, Q3],
-        ["tup", ["var", B], S(Q3)])                                                     # differs under BOTH profiles
-    add("tuple", [Q2, Q2], ["c = a + b", "d = c < b", "return (d, c + a)"], ["tuple", B, Q2], ["tup", ["var", B], S(Q2)])
-    add("bool-ret", [Q3, Q3], ["c = a + b", "return c > b"], B, S(B))                   # differs under BOTH profiles
+        ["tup", ["var", B], S(Q3)])                                                     # both profiles; a + b wraps (C01)
+    add("tuple", [Q2, Q2], ["c = a ^ b", "d = c < b", "return (d, c + a)"], ["tuple", B, Q2], ["tup", ["var", B], S(Q2)])
+    add("bool-ret", [Q3, Q3], ["c = a + b", "return c > b"], B, S(B))                   # both profiles; a + b wraps (C01)
     add("ite", [Q3, Q3, B], ["d = a + b", "return d * b if c else d"], Q3, S(Q3))
     add("same-layout", [Q2, Q2], ["return a + b"], Q2, S(Q2))                           # control: nothing moves
     add("same-layout", [B, B, B], ["d = a and b", "return d ^ c"], B, S(B))
@@ -574,7 +583,7 @@ def random_history_program(rng, idx):
     s1 = rng.choice(["a + b", "a - b", "a + 1", "b + 3", "a ^ b"] + (["a * b"] if w == 2 else []))
     s2 = rng.choice(["c * b", "c + a", "c - b", "c * a", "c * 3", "(c + 1) * b", "c * c", "c + b"])
     if rng.random() < 0.3:
-        s3 = rng.choice(["d + c", "d + a", "d * b", "d - c"])
+        s3 = rng.choice(["d + c", "d + a", "d * b", "d - c", "d * c"])
         body = [f"c = {s1}", f"d = {s2}", f"return {s3}"]
     else:
         body = [f"c = {s1}", f"return {s2}"]
@@ -898,6 +907,12 @@ class Checker:
         qf_before = self.qf_state(qf)
         gates = circ.qc_to_json(qf.circuit())
         classical = all(circ.is_classical(g) or g["c"] in ("Barrier", "NopGate") for g in gates)
+        # the reported number of qubits is that of the circuit() the object hands out, and covers every wire of it
+        wires = 1 + max([q for g in gates for q in g.get("w", [])] + [q for q in qmap.values() if isinstance(q, int)] + [-1])
+        if nq != qf.circuit().num_qubits or nq < wires:
+            res.violation(pcase, "num_qubits is not the number of qubits of the circuit the object returns (or a gate / "
+                                 "mapped name lies outside it)", code=nq, expected=dict(circuit_num_qubits=qf.circuit().num_qubits, wires_used=wires))
+            nq = max(nq, wires)
         if not classical:
             self.stats["nonclassical"] += 1
         # ---- is this compiled function covered end to end by the Lean theorem C05_end_to_end_general?
@@ -1456,7 +1471,9 @@ def run(ctx: Ctx) -> Result:
         "unused, used late, augmented assignment, tuple element re-bound, aliased / swapped) under EVERY configuration "
         "{defaultOptimizer, fastOptimizer} x {uncompute on, off} with ALL argument values, then random signatures (1-3 "
         "args, nested tuples, Qlist) x return forms (every third under a random configuration) with all values when "
-        "<= 2^10 else sampled, then random re-binding programs under every configuration; non-trivial = non-zero input "
+        "<= 2^10 else sampled, then random re-binding programs under every configuration; HISTORIES on one object (16 "
+        "programs whose layout differs between uncompute on and off x 2 profiles x 5 histories of compile() again / read / "
+        "second object, every state with all argument values; then random histories); non-trivial = non-zero input "
         "and a multi-argument or tuple-typed signature; plus per program (reading, str/list/int form, out_len) cases of "
         "format_outcome / interpret_as_qtype called twice on one object"
     )
@@ -1617,11 +1634,40 @@ def replay(ctx: Ctx, payload):
     res = Result("C05")
     ck = Checker(ctx, res)
     prog = None
+    tier = payload.get("tier", "quick")
+    prng = random.Random(0)
+    if case.get("history"):
+        # a state of an object with a history: run that history again (same program, same profile of object A)
+        hname = case["history"]
+        prof = case.get("profile", DEFAULT_CONFIG[0])
+        if case.get("object") == "B" and any("other profile" in t for t in case.get("steps", [])):
+            prof = OTHER_PROFILE[prof]
+        steps = HISTORIES.get(hname)
+        for p in history_programs():
+            if p["src"] == src:
+                prog = p
+        if steps is None:
+            i = int(hname.split("-")[1])
+            prng = random.Random(f"C05-h-{payload.get('seed', 0)}-{i}")
+            hp = history_programs()
+            p = random_history_program(prng, i) if i % 3 else hp[prng.randrange(len(hp))]
+            prng.choice(["defaultOptimizer", "fastOptimizer", "fastOptimizer"])
+            steps = random_history(prng)
+            prog = p if p["src"] == src else None
+        if prog is None:
+            print("history program not found in the generator stream")
+            return 2
+        print("history:", hname, "under", prof, [step_text(x) for x in steps])
+        ck.check_history(prog, prof, hname, steps, 10, 120, prng)
+        ck.flush()
+        for v in res.violations[:3]:
+            print(json.dumps(v, indent=1, default=str)[:3000])
+        for d in res.disagreements[:3]:
+            print("DISAGREE", json.dumps(d, indent=1, default=str)[:2000])
+        return 1 if (res.violations or res.disagreements) else 0
     for p in systematic_programs() + qmap_programs():
         if p["src"] == src:
             prog = p
-    tier = payload.get("tier", "quick")
-    prng = random.Random(0)
     if prog is None:
         maxbits = 14 if tier == "thorough" else 10
         for i in range(1200 if tier == "thorough" else 120):
